@@ -207,6 +207,29 @@ def rule_handles(ctx):
         ctx.check(okh, R, "handle", b.where(0), "handle <- the directory entry's name parsed as a number", "handle <- %s" % show(h)[:120])
         ctx.check(okn, R, "name", b.where(0), "object_name_rva <- string of read_link(entry.path())", "object_name_rva <- %s" % show(n)[:160])
         ctx.check(oka, R, "attributes", b.where(0), "attributes <- st_mode of stat(entry.path())", "attributes <- %s" % show(at)[:120])
+    # "its file mode": the mode is that of the OPEN FILE, reached through the /proc/<pid>/fd/<n> entry itself; the link's text is only
+    # a name (an unlinked file reads `/x (deleted)`, a memfd `/memfd:n (deleted)`, another mount namespace's path names something else
+    # here).  So whatever file_stat hands to stat() comes from the entry path, never from the read_link result.
+    sb = ctx.body(R, "linux::sections::handle_data_stream::file_stat")
+    if sb is not None:
+        so = Origin(sb)
+        st = [(x, so.call_args(x)) for x, t in sb.calls(lambda c: (c.short or "") in ("libc::stat", "libc::stat64", "libc::lstat", "libc::fstatat", "std::fs::metadata", "std::fs::symlink_metadata"))]
+        ctx.floor(R, "stat call in file_stat", len(st), 1)
+        fed = sorted({q[1] for x, a in st for e in alts(a[0]) for q in walk(e) if q[0] == "param"})
+        bo_ = Origin(b)
+        for x, t in b.calls(lambda c: (c.short or "").endswith("handle_data_stream::file_stat")):
+            a = bo_.call_args(x)
+            bad = []
+            for pi in fed:
+                if pi - 1 >= len(a):
+                    continue
+                e = a[pi - 1]
+                from_entry = any(q[0] == "call" and q[1].split("::")[-1] == "path" and root(strip(q[2][0])) == ("param", 2) for q in walk(e))
+                from_link = any(q[0] == "call" and q[1].split("::")[-1] in ("read_link", "canonicalize") for q in walk(e))
+                if not from_entry or from_link:
+                    bad.append(show(e)[:70])
+            ctx.check(bool(fed) and not bad, R, "stat-through-entry", b.where(x), "the mode comes from stat() of the fd entry itself",
+                      "stat() is (also) given %s: the mode of a descriptor whose link text does not name the open file (unlinked file, memfd, other namespace) is lost and the descriptor dropped" % bad)
     # which failures make a descriptor disappear: every `?` on an Option in direntry_to_descriptor drops the entry silently,
     # so the set of drop causes is frozen (one descriptor per fd unless one of exactly these steps fails)
     bo = Origin(b)
